@@ -2,6 +2,7 @@
 //! one protocol line per case:  cmd \t arg… \t implOutput
 mod codec;
 mod gen;
+mod isolate;
 mod rng;
 mod streams;
 mod watch;
@@ -21,6 +22,12 @@ impl Out {
         line.push('\n');
         self.w.write_all(line.as_bytes()).unwrap();
         self.count += 1;
+        // six calls that never returned are evidence enough: stop the stream here instead of piling up
+        // spinning threads and watchdog waits (the cases so far, hangs included, are all reported)
+        if watch::HANGS.load(std::sync::atomic::Ordering::SeqCst) >= 6 {
+            self.w.flush().unwrap();
+            std::process::exit(0);
+        }
     }
 }
 
@@ -37,6 +44,8 @@ fn main() {
     let mut r = rng::Rng::new(seed);
     let mut out = Out { w: std::io::BufWriter::new(std::io::stdout()), count: 0 };
     match stream {
+        "child-ztext" => return isolate::child_main(streams::ztext::parse_text_of),
+        "child-hosts" => return isolate::child_main(streams::hosts::parse_text_of),
         "name" => streams::name::run(&mut r, n, &mut out),
         "wire-decode" => streams::wire::run_decode(&mut r, n, &mut out),
         "wire-mutations" => streams::wire::run_decode_mutations(&mut r, n, &mut out),
